@@ -182,7 +182,12 @@ impl Report {
             "violations": unlisted,
         });
         std::fs::create_dir_all(dir.join("evidence")).ok();
-        let path = dir.join("evidence").join(format!("{}.json", self.prop));
+        let variant = std::env::var("HCVERIF_VARIANT").unwrap_or_default();
+        let path = if variant.is_empty() {
+            dir.join("evidence").join(format!("{}.json", self.prop))
+        } else {
+            dir.join("evidence").join(format!("{}.{}.json", self.prop, variant))
+        };
         std::fs::write(&path, serde_json::to_string_pretty(&ev).unwrap() + "\n")
             .expect("cannot write evidence");
         println!(
